@@ -144,6 +144,91 @@ fn gen(r: &mut StdRng) -> Value {
     json!({"base": base, "extends": extends, "ops": r.gen_range(3..=10)})
 }
 
+/// application level: the state model of the search instance the application builds for a query - features declared in
+/// the [state] section, contributed by the traversal (speed table: distance, time) and access (turn delay: time) models,
+/// and re-declared by the query (`state_features`: other units / initial values).  Precedence: query > models > config.
+fn run_app_scenario(out: &mut Out, scn: &Value, tag: usize) {
+    use crate::app::*;
+    out.scenario(scn);
+    let net = json!({"nv": 3, "xy": [[0, 0], [1, 0], [2, 1]], "E": [[1, 2, 200, 10], [2, 3, 300, 10], [1, 3, 900, 5]]});
+    let dir = crate::search::scratch_dir();
+    std::fs::write(dir.join("sm-headings.csv"), "arrival_heading,departure_heading\n0,0\n10,10\n90,90\n").unwrap();
+    // [state] section
+    let mut st = String::from("[state]\n");
+    for f in scn["config"].as_array().unwrap() {
+        let unit_key = match f["kind"].as_str().unwrap() { "distance" => "distance_unit", "time" => "time_unit", _ => "energy_unit" };
+        st.push_str(&format!("{} = {{ type = \"{}\", {} = \"{}\", initial = {:?} }}\n", f["name"].as_str().unwrap(), f["kind"].as_str().unwrap(),
+                             unit_key, f["unit"].as_str().unwrap(), f["init"].as_f64().unwrap()));
+    }
+    let (tdu, ttu) = (scn["trav_du"].as_str().unwrap(), scn["trav_tu"].as_str().unwrap());
+    let mut opts = json!({
+        "traversal_toml": format!("[traversal]\ntype = \"speed_table\"\nspeed_table_input_file = \"$SPEEDS\"\nspeed_unit = \"meters_per_second\"\ndistance_unit = \"{}\"\ntime_unit = \"{}\"\n", tdu, ttu),
+    });
+    if !scn["config"].as_array().unwrap().is_empty() {
+        opts["state_toml"] = json!(st);
+    }
+    let files = write_app(&net, &opts, &format!("sm{}", tag % 8));
+    let app = match build_app(&files) {
+        Ok(a) => a,
+        Err(e) => {
+            out.event(json!({"ev": "SMAppBuildError", "msg": e}));
+            return;
+        }
+    };
+    let mut query = json!({"origin_vertex": 0, "destination_vertex": 2});
+    let mut sf = serde_json::Map::new();
+    for f in scn["query"].as_array().unwrap() {
+        let unit_key = match f["kind"].as_str().unwrap() { "distance" => "distance_unit", "time" => "time_unit", _ => "energy_unit" };
+        sf.insert(f["name"].as_str().unwrap().to_string(), json!({"type": f["kind"], unit_key: f["unit"], "initial": f["init"]}));
+    }
+    if !sf.is_empty() {
+        query["state_features"] = Value::Object(sf);
+    }
+    // expected features: config, overwritten by the models' (in the traversal model's units, starting at zero), overwritten by the query's
+    let mut expect: Vec<Value> = scn["config"].as_array().unwrap().clone();
+    for m in [json!({"name": "distance", "kind": "distance", "unit": tdu, "init": 0.0}), json!({"name": "time", "kind": "time", "unit": ttu, "init": 0.0})]
+        .into_iter()
+        .chain(scn["query"].as_array().unwrap().iter().cloned())
+    {
+        match expect.iter_mut().find(|e| e["name"] == m["name"]) {
+            Some(e) => *e = m,
+            None => expect.push(m),
+        }
+    }
+    match app.search_app.build_search_instance(&query) {
+        Err(e) => out.event(json!({"ev": "SMApp", "ok": false, "msg": e.to_string(), "expect": feats_ev(&expect), "obs": {}, "units": [], "vec": []})),
+        Ok(si) => {
+            let sm = &si.state_model;
+            let ser = sm.serialize_state_model();
+            let units: Vec<Value> = sm.iter().map(|(n, _)| ser[n].get("distance_unit").or_else(|| ser[n].get("time_unit")).or_else(|| ser[n].get("energy_unit")).cloned().unwrap_or(json!("?"))).collect();
+            let vec: Vec<Value> = sm.initial_state().map(|s| s.iter().map(|x| sci(x.0)).collect()).unwrap_or_default();
+            out.event(json!({"ev": "SMApp", "ok": true, "expect": feats_ev(&expect), "obs": observers(sm), "units": units, "vec": vec}));
+        }
+    }
+}
+
+fn gen_app(r: &mut StdRng) -> Value {
+    let dus = ["meters", "kilometers", "miles", "feet"];
+    let tus = ["seconds", "minutes", "hours", "milliseconds"];
+    let val = |r: &mut StdRng| if r.gen_bool(0.4) { 0.0 } else { (r.gen_range(0.0..500.0f64) * 10.0).round() / 10.0 };
+    let mut config = vec![];
+    for name in ["extra_distance", "extra_time", "distance", "time", "energy_budget"] {
+        if r.gen_bool(0.3) {
+            let kind = if name.contains("distance") { "distance" } else if name.contains("time") { "time" } else { "energy" };
+            let unit = match kind { "distance" => dus[r.gen_range(0..4)], "time" => tus[r.gen_range(0..4)], _ => "kilowatt_hours" };
+            config.push(json!({"name": name, "kind": kind, "unit": unit, "ctype": "", "init": val(r)}));
+        }
+    }
+    let mut query = vec![];
+    for (name, kind) in [("distance", "distance"), ("time", "time")] {
+        if r.gen_bool(0.6) {
+            let unit = if kind == "distance" { dus[r.gen_range(0..4)] } else { tus[r.gen_range(0..4)] };
+            query.push(json!({"name": name, "kind": kind, "unit": unit, "ctype": "", "init": val(r)}));
+        }
+    }
+    json!({"app": true, "config": config, "query": query, "trav_du": dus[r.gen_range(0..3)], "trav_tu": tus[r.gen_range(0..4)]})
+}
+
 pub fn main(args: &[String]) -> i32 {
     let mut out = Out::new();
     let n = arg_usize(args, "--random", 300);
@@ -152,6 +237,11 @@ pub fn main(args: &[String]) -> i32 {
     for _ in 0..n {
         let s = gen(&mut r);
         guarded(&mut out, |o| run_scenario(o, &s, &mut r2));
+    }
+    let mut r3 = rng(113);
+    for i in 0..arg_usize(args, "--app", 0) {
+        let s = gen_app(&mut r3);
+        guarded(&mut out, |o| run_app_scenario(o, &s, i));
     }
     out.flush();
     0
